@@ -5,6 +5,7 @@ import (
 	"encoding/json"
 	"errors"
 	"fmt"
+	"sort"
 	"strings"
 	"sync"
 
@@ -488,6 +489,19 @@ func c02Eval(mode string, cs c02Case) CaseResult {
 						got = fmt.Sprintf("!%d tools listed", len(out.Tools))
 					} else {
 						got = c02ToolCanon(out.Tools[0])
+						// the decoded (typed) schemas describe the same members as the raw ones they were decoded from
+						for _, side := range []struct {
+							name  string
+							raw   json.RawMessage
+							typed interface{}
+						}{{"inputSchema", out.Tools[0].RawInputSchema, out.Tools[0].InputSchema}, {"outputSchema", out.Tools[0].RawOutputSchema, out.Tools[0].OutputSchema}} {
+							if len(side.raw) == 0 || side.typed == nil || hx.CanonOf(side.typed) == "null" {
+								continue
+							}
+							if a, b := c02PropNames(side.raw), c02PropNames([]byte(hx.CanonOf(side.typed))); a != b {
+								viol = append(viol, V(key("typed-schema-differs:"+side.name), "ListTools: the decoded %s of the listed tool has the members [%s], the schema it was decoded from has [%s]", side.name, b, a))
+							}
+						}
 					}
 				}
 			case "promptdesc":
@@ -562,6 +576,20 @@ func c02Eval(mode string, cs c02Case) CaseResult {
 		cr.Broken = o.Broken
 	}
 	return cr
+}
+
+// c02PropNames returns the sorted names of the top-level "properties" of a JSON schema.
+func c02PropNames(schema []byte) string {
+	var m struct {
+		Properties map[string]json.RawMessage `json:"properties"`
+	}
+	json.Unmarshal(schema, &m)
+	var ks []string
+	for k := range m.Properties {
+		ks = append(ks, k)
+	}
+	sort.Strings(ks)
+	return strings.Join(ks, ",")
 }
 
 // c02ToolCanon renders a listed tool for comparison with the registered one: the client keeps
